@@ -186,12 +186,12 @@ end
 
 /-- (batch B2) the step also says the range check of the 8-bit form passed -/
 theorem fixStep3_pcr_in {ss : List Stmt} {i : Nat} {s2 s' : Stmt} (hn : s2.pkg.needsRes = true)
-    (h : fixStep3 ss i s2 = .ok s') :
+    (hc : s2.pkg.choices.isEmpty = false) (h : fixStep3 ss i s2 = .ok s') :
     ∃ r start v, fixRel ss s2 = .ok r ∧ addrIntOf ss i = some start ∧
       numericOfInt (pcrJump s2 r start) (some s2.pcrHint) .none = .ok v ∧ s' = withAdditional s2 v ∧
       ¬ pcrOut s2 r start := by
   unfold fixStep3 at h
-  rw [if_pos hn] at h
+  rw [if_pos hn, if_neg (by simp [hc])] at h
   split at h
   · rename_i r start hr hst
     split at h
@@ -205,11 +205,27 @@ theorem fixStep3_pcr_in {ss : List Stmt} {i : Nat} {s2 s' : Stmt} (hn : s2.pkg.n
   · cases h
 
 theorem fixStep3_pcr {ss : List Stmt} {i : Nat} {s2 s' : Stmt} (hn : s2.pkg.needsRes = true)
-    (h : fixStep3 ss i s2 = .ok s') :
+    (hc : s2.pkg.choices.isEmpty = false) (h : fixStep3 ss i s2 = .ok s') :
     ∃ r start v, fixRel ss s2 = .ok r ∧ addrIntOf ss i = some start ∧
       numericOfInt (pcrJump s2 r start) (some s2.pcrHint) .none = .ok v ∧ s' = withAdditional s2 v := by
-  obtain ⟨r, start, v, h1, h2, h3, h4, _⟩ := fixStep3_pcr_in hn h
+  obtain ⟨r, start, v, h1, h2, h3, h4, _⟩ := fixStep3_pcr_in hn hc h
   exact ⟨r, start, v, h1, h2, h3, h4⟩
+
+/-- (batch B3) a label as constant offset (`needsRes` without choices): the target address itself is stored, in the
+16-bit field -/
+theorem fixStep3_abs {ss : List Stmt} {i : Nat} {s2 s' : Stmt} (hn : s2.pkg.needsRes = true)
+    (hc : s2.pkg.choices.isEmpty = true) (h : fixStep3 ss i s2 = .ok s') :
+    ∃ r v, fixRel ss s2 = .ok r ∧ numericOfInt (r : Int) (some 4) .none = .ok v ∧ s' = withAdditional s2 v := by
+  unfold fixStep3 at h
+  rw [if_pos hn, if_pos hc] at h
+  unfold fixAbs at h
+  split at h
+  · rename_i r hr
+    split at h
+    · rename_i v hv; cases h; exact ⟨r, v, hr, hv, rfl⟩
+    · cases h
+  · cases h
+  · cases h
 
 /-- the target of a PCR operand whose offset is a plain label: the address of the statement it names -/
 theorem fixRel_plain {ss : List Stmt} {s2 : Stmt} {t : Nat}
@@ -230,7 +246,8 @@ theorem fixRel_plain {ss : List Stmt} {s2 : Stmt} {t : Nat}
 (reduced mod 65536 when the 16-bit form was chosen) -/
 theorem fixOne_pcr {ss : List Stmt} {i : Nat} {s s' : Stmt} (hk : (s.operand.kind == .relative) = false)
     (hv1 : s.operand.value.isAddrExpr = false) (hv2 : s.operand.value.isAddress = false)
-    (hv3 : s.operand.value ≠ .pyNone) (hn : s.pkg.needsRes = true) (h : fixOne ss i s = .ok s') :
+    (hv3 : s.operand.value ≠ .pyNone) (hn : s.pkg.needsRes = true) (hc : s.pkg.choices.isEmpty = false)
+    (h : fixOne ss i s = .ok s') :
     ∃ r start v, fixRel ss s = .ok r ∧ addrIntOf ss i = some start ∧
       numericOfInt (pcrJump s r start) (some s.pcrHint) .none = .ok v ∧ s' = withAdditional s v := by
   rw [fixOne_nonrel ss i s hk hv3] at h
@@ -239,13 +256,14 @@ theorem fixOne_pcr {ss : List Stmt} {i : Nat} {s s' : Stmt} (hk : (s.operand.kin
   rw [h1] at h
   simp only [Outcome.bind] at h
   rw [h2] at h
-  exact fixStep3_pcr hn h
+  exact fixStep3_pcr hn hc h
 
 /-- (batch B2, with the range check) `fix_addresses` on a PCR statement: the stored offset is `target − own address − own size`
 (reduced mod 65536 when the 16-bit form was chosen) -/
 theorem fixOne_pcr_in {ss : List Stmt} {i : Nat} {s s' : Stmt} (hk : (s.operand.kind == .relative) = false)
     (hv1 : s.operand.value.isAddrExpr = false) (hv2 : s.operand.value.isAddress = false)
-    (hv3 : s.operand.value ≠ .pyNone) (hn : s.pkg.needsRes = true) (h : fixOne ss i s = .ok s') :
+    (hv3 : s.operand.value ≠ .pyNone) (hn : s.pkg.needsRes = true) (hc : s.pkg.choices.isEmpty = false)
+    (h : fixOne ss i s = .ok s') :
     ∃ r start v, fixRel ss s = .ok r ∧ addrIntOf ss i = some start ∧
       numericOfInt (pcrJump s r start) (some s.pcrHint) .none = .ok v ∧ s' = withAdditional s v ∧
       ¬ pcrOut s r start := by
@@ -255,7 +273,7 @@ theorem fixOne_pcr_in {ss : List Stmt} {i : Nat} {s s' : Stmt} (hk : (s.operand.
   rw [h1] at h
   simp only [Outcome.bind] at h
   rw [h2] at h
-  exact fixStep3_pcr_in hn h
+  exact fixStep3_pcr_in hn hc h
 
 /-! ### sums of sizes and addresses -/
 
@@ -550,8 +568,8 @@ theorem Stages.branch_pre {fs : Files} {lines : List Str} {a : Assembly} (st : S
           rcases this with h | h | h | h | h <;> cases h
   obtain ⟨t1, t2, t3, t4, t5, t6, t7⟩ := translate_relative tr.htr hko
   have hfixed : (mkTranslated tr.s0 tr.o tr.p).fixedSize = true := by
-    show (!(tr.p.needsRes || !tr.p.choices.isEmpty)) = true
-    rw [t6, t7]; rfl
+    show tr.p.choices.isEmpty = true
+    rw [t7]; rfl
   have h3 := tr.fixed hfixed
   obtain ⟨v4, h4⟩ := tr.addr
   have hrow4 : tr.s4.row = tr.s0.row := by rw [h4, h3]; rfl
